@@ -19,6 +19,8 @@ ASSUMPTIONS = [
     "'second' sub-spaces check the single filters in the states of a second episode (after an earlier episode of every length, during which "
     "the filters were called, and a reset())",
     "filters are called directly with every non-empty order-preserving sub-list L of the ready operations in every reachable state; "
+    "compositions are also built from a generator of names, from a mix of enum members and callables, and as a composition of two "
+    "compositions (a composite is itself a filter); all must give the same result on the full ready list",
     "compositions are built by create_composite_operation_filter and compared with the chain of single filters on a replica dispatcher",
 ]
 STUBS = ["max", "min", "int (dispatcher module only)"]
@@ -157,7 +159,10 @@ def harness(eng, sp):
     from job_shop_lib.dispatching import ReadyOperationsFilterType
 
     gen_fns = [(c, create_composite_operation_filter(n for n in c),
-                create_composite_operation_filter([ReadyOperationsFilterType(c[0])] + [singles[b] for b in c[1:]])) for c in comps]
+                create_composite_operation_filter([ReadyOperationsFilterType(c[0])] + [singles[b] for b in c[1:]]),
+                # a composite is itself a filter: a composition of compositions
+                create_composite_operation_filter([create_composite_operation_filter([c[0]]),
+                                                   create_composite_operation_filter(list(c[1:]))])) for c in comps]
     for k in range(desc.n_ops):
         ready = spec.ready_ops()
         eng.reachable("state")
@@ -205,10 +210,10 @@ def harness(eng, sp):
                 elif len(set(res)) != len(res) or not is_subsequence(res, L):
                     eng.fail(key + "/not-an-order-preserving-sublist", f"{res} of {L}")
             if L == ready:
-                for c, g1, g2 in gen_fns:
+                for c, g1, g2, g3 in gen_fns:
                     key = "C07/composition/" + "+".join(c)
                     want = call(eng, dict(comp_fns_lookup(comp_fns))["+".join(c)], disp, Lops, key)
-                    for how, fn in (("generator-of-names", g1), ("enum-and-callables", g2)):
+                    for how, fn in (("generator-of-names", g1), ("enum-and-callables", g2), ("nested-composites", g3)):
                         got = call(eng, fn, disp, Lops, key + "/" + how)
                         if got is not None and want is not None and got != want:
                             eng.fail(key + f"/built-from-{how}-differs", f"L={L}: {got} vs {want}")
